@@ -27,10 +27,19 @@ MAX_ROUNDS = 6
 _BLOCKS = ('body', 'orelse', 'finalbody')
 
 
+# one-expression helpers of the reference tree that the rules read through:
+# they are written out like the helpers the census does not know, so that a
+# tree where they were inlined by hand reads the same
+TRANSPARENT = {
+    'bert_e.workflow.gitwaterflow.branches.is_cascade_producer',
+    'bert_e.workflow.gitwaterflow.branches.is_cascade_consumer',
+}
+
+
 def baseline():
     with open(BASELINE_FILE, encoding='utf-8') as fh:
         return {ln.strip() for ln in fh
-                if ln.strip() and not ln.startswith('#')}
+                if ln.strip() and not ln.startswith('#')} - TRANSPARENT
 
 
 def modname_of(path):
